@@ -234,6 +234,22 @@ CLAIMED = {
         note="Trusted: TLC, the transcription of CSS 2.1. Multi-component grammars are covered metamorphically only; values the prose (not "
              "the grammar) forbids and CSS3 extensions of tabled properties are left open. Two known findings (explicit '+' sign, "
              "min-width: none)."),
+    "C06": dict(
+        technique="TLA+ contract Effect(prefs, sheet) over the abstract stylesheet (PrefsContract: filters for comments, empty / unknown / "
+                  "unused-namespace rules, effective and valid declarations, variable resolution, href form; spelling, last-semicolon, "
+                  "layout-token and restoration clauses; two NAMED deviations), rows (base sheet x preference assignment) enumerated by "
+                  "TLC with design lemmas (Prefs.tla); adapter serialises, reparses, tokenises; TLC trace monitor judges",
+        text="Bounded exhaustive over assignments: 18 base sheets on which every preference acts x {default, every preference alone with "
+             "every non-default value, ALL pairs of preferences x all non-default values, minified preset, preset with one override, "
+             "seeded full assignments} (11.5k rows quick; + C02 level sheets and 1500 full assignments thorough), each in one of 6 "
+             "spelling vectors. TLC checks: reparse(output) = Effect(prefs, DOM); every at-keyword / property name / priority / colour "
+             "hash / number / variable name is spelled normalised or literal as its preference says; blocks end with or without ';'; "
+             "layout preferences leave the non-whitespace token sequence unchanged; useDefaults() restores the default bytes; "
+             "the preset and assignments take effect as read back.",
+        design_ref="DESIGN.md section 5 C06",
+        note="Trusted: TLC, the renderer/projection shared with C02, cssutils' tokenizer for the token clause (C05). lineNumbers excluded. "
+             "Validity is taken from a small table for the generated declarations. Two known findings (named deviations in the contract), "
+             "three defects fixed in /repo."),
 }
 PENDING = "check not built yet in this round (see DESIGN.md section 10 build order); no claim is made"
 NOT_APPLICABLE = {}
